@@ -160,7 +160,7 @@ theorem no_return_on_fault (p : Proto) (o o' : OutObj) (e : Cls × FaultV) :
 /-- user code raises a Fault: the response is that fault's encoding with the documented status -/
 theorem fault_response (p : Proto) (c : Cls) (f : FaultV) (w : Wire) (hw : encodeFault facts09 p f = some w) :
     wsgi facts09 p none (.plain (.raises (.fault c f))) = .response (statusOf facts09 p c f.code) w := by
-  simp [wsgi, process, afterRaise, funnel, handleError, hw]
+  simp [wsgi, wsgiOn, process, afterRaise, funnel, handleError, hw]
 
 /-- end to end: whatever the reference decoder reads from the encoding of the raised fault (the `fault_roundtrip_*`
     theorems say what that is under each protocol) is what it reads from the HTTP response, sent with the
@@ -185,7 +185,7 @@ theorem status_preset_respected (p : Proto) (s : Nat) (c : Cls) (f : FaultV) (w 
     (hw : encodeFault facts09 p f = some w) :
     wsgi facts09 p (some s) (.plain (.raises (.fault c f))) = .response s w := by
   have h : facts09.errorPathKeepsStatus = true := by decide
-  simp [wsgi, process, afterRaise, funnel, handleError, hw, h]
+  simp [wsgi, wsgiOn, process, afterRaise, funnel, handleError, hw, h]
 
 /-- the same when the fault is raised by a generator method — before its first `yield` or later,
     while the response is being produced: nothing of what it yielded is sent -/
@@ -195,7 +195,7 @@ theorem fault_response_generator (p : Proto) (c : Cls) (f : FaultV) (w : Wire)
     wsgi facts09 p none (.gen (.value v) (some (.fault c f))) = .response (statusOf facts09 p c f.code) w := by
   have h1 : facts09.genFirstGuarded = true := by decide
   have h2 : facts09.serErr = .funnelled := by decide
-  simp [wsgi, process, afterRaise, funnel, handleError, serializeFailed, hw, h1, h2]
+  simp [wsgi, wsgiOn, process, afterRaise, funnel, handleError, serializeFailed, hw, h1, h2]
 
 /-! ### every raise site: event listeners are user code too -/
 
@@ -220,7 +220,7 @@ theorem fault_response_listener (site : Site) (level : Level) (p : Proto) (c : C
     (hw : encodeFault facts09 p f = some w) (v : Text) :
     wsgi facts09 p none (.hook site level (.fault c f) (.value v)) = .response (statusOf facts09 p c f.code) w := by
   have h := listeners_in_try site level
-  cases site <;> simp [wsgi, process, h, afterRaise, funnel, handleError, hw]
+  cases site <;> simp [wsgi, wsgiOn, process, h, afterRaise, funnel, handleError, hw]
 
 /-- a non-Fault exception raised by a listener is answered with the generic fault, status 500 -/
 theorem other_from_listener_is_internal_error (site : Site) (level : Level) (p : Proto) (e : Exc) (v : Text) :
@@ -242,7 +242,36 @@ theorem other_from_listener_is_internal_error (site : Site) (level : Level) (p :
   obtain ⟨w, hw⟩ := henc
   have hcode : internalError.code = T "Server" := rfl
   refine ⟨w, hw, ?_⟩
-  cases site <;> simp [wsgi, process, h, afterRaise, funnel, handleError, hg, hw, hcode, hst]
+  cases site <;> simp [wsgi, wsgiOn, process, h, afterRaise, funnel, handleError, hg, hw, hcode, hst]
+
+/-! ### per-request output protocol: the status is the one documented for the protocol that WRITES the fault -/
+
+/-- User code (function body or `method_call` listener) that replaces `ctx.out_protocol` before it raises or
+    returns gets, for every program and every pre-set status, exactly the response of an application configured
+    with that protocol — body and status. Every theorem of this file about `wsgi … p …` therefore holds with
+    `p` = the per-request protocol: 400/413/404/405/401 when a non-SOAP protocol writes the fault although the
+    application is configured with SOAP, always 500 when SOAP writes it although the application is not. -/
+theorem swapped_protocol_as_if_configured (app req : Proto) (preset : Option Nat) (u : UserCode) :
+    wsgiSwap facts09 app (some req) preset u = wsgi facts09 req preset u := by
+  have h : facts09.statusAsker = .requestProtocol := by decide
+  simp [wsgiSwap, wsgi, statusProto, h]
+
+/-- spelled out for a raised Fault: written by `req`, status `statusOf req` -/
+theorem fault_response_swapped (app req : Proto) (c : Cls) (f : FaultV) (w : Wire)
+    (hw : encodeFault facts09 req f = some w) :
+    wsgiSwap facts09 app (some req) none (.plain (.raises (.fault c f))) =
+      .response (statusOf facts09 req c f.code) w := by
+  rw [swapped_protocol_as_if_configured]; exact fault_response req c f w hw
+
+example (c : Cls) (f : FaultV) (w : Wire) (hw : encodeFault facts09 (.dict false) f = some w)
+    (hc : c = Cls.plain) (hf : IsClient f.code) :
+    wsgiSwap facts09 .soap11 (some (.dict false)) none (.plain (.raises (.fault c f))) = .response 400 w := by
+  rw [fault_response_swapped _ _ c f w hw, hc, (status_client_iff (.dict false) rfl f.code).2 hf]
+
+/-- without a replacement nothing changes -/
+theorem no_swap (app : Proto) (preset : Option Nat) (u : UserCode) :
+    wsgiSwap facts09 app none preset u = wsgi facts09 app preset u := by
+  cases h : facts09.statusAsker <;> simp [wsgiSwap, wsgi, statusProto, h]
 
 /-! ### non-Fault exceptions -/
 
@@ -278,7 +307,7 @@ theorem other_is_internal_error (p : Proto) (e : Exc) (v : Text) (later : Option
   obtain ⟨w, hw⟩ := henc
   have hcode : internalError.code = T "Server" := rfl
   refine ⟨w, hw, ?_, ?_, ?_, ?_⟩ <;>
-    simp [wsgi, process, afterRaise, funnel, handleError, serializeFailed, hg, hw, h1, h2, hcode, hst]
+    simp [wsgi, wsgiOn, process, afterRaise, funnel, handleError, serializeFailed, hg, hw, h1, h2, hcode, hst]
 
 /-- the reference decoder reads `Server` / `Internal Error` from it, with no detail -/
 theorem internal_error_decodes (p : Proto) :
